@@ -177,6 +177,10 @@ pub struct RunCtx {
     pub exhaustive: AtomicBool,
     /// Some((phase, shard)): this process is a child running exactly that shard
     pub child: Option<(String, u64)>,
+    /// Some((phase, tape)): single-case mode — `search` evaluates exactly this tape for this
+    /// phase and stores the result (used by the coverage-guided fuzz target and `dlv tape`)
+    pub single: Mutex<Option<(String, Vec<u8>)>>,
+    pub single_result: Mutex<Option<CaseResult>>,
     isolated: Mutex<Vec<String>>,
     watchdog: Arc<Watchdog>,
 }
@@ -242,6 +246,8 @@ impl RunCtx {
             notes: Mutex::new(std::env::var("VERIF_BUILD_NOTE").ok().into_iter().collect()),
             exhaustive: AtomicBool::new(false),
             child: None,
+            single: Mutex::new(None),
+            single_result: Mutex::new(None),
             isolated: Mutex::new(Vec::new()),
             watchdog: wd,
         }
@@ -293,6 +299,17 @@ impl RunCtx {
     where
         F: Fn(&[u8], &mut Stats) -> CaseResult + Sync,
     {
+        if let Some((p, tape)) = self.single.lock().unwrap().as_ref() {
+            if p == phase {
+                let mut st = Stats::default();
+                let r = match f(&tape[..tape.len().min(max_len)], &mut st) {
+                    CaseResult::Fail(fl) if fl.signature.as_deref().and_then(|s| self.known_signature(s)).is_some() => CaseResult::Discard("listed known finding"),
+                    r => r,
+                };
+                *self.single_result.lock().unwrap() = Some(r);
+            }
+            return;
+        }
         if self.failed() {
             return;
         }
@@ -489,7 +506,7 @@ impl RunCtx {
     where
         F: Fn(u64, &mut Stats) -> CaseResult + Sync,
     {
-        if self.failed() || n == 0 || self.child.is_some() {
+        if self.failed() || n == 0 || self.child.is_some() || self.single.lock().unwrap().is_some() {
             return;
         }
         let shards = (self.threads.max(1) as u64).min(n);
@@ -877,6 +894,73 @@ pub fn run_shard_process(def: &PropDef, tier: Tier, seed: u64, verif_dir: PathBu
     let fail = ctx.failures.lock().unwrap().first().cloned();
     println!("SHARD-RESULT {}", json!({"stats": st.to_json(), "failure": fail.map(|f| f.to_json())}));
     0
+}
+
+/// evaluate one tape of one search phase of a property (single-case mode)
+pub fn run_single(def: &PropDef, ctx: &RunCtx, phase: &str, tape: &[u8]) -> Option<CaseResult> {
+    *ctx.single.lock().unwrap() = Some((phase.to_string(), tape.to_vec()));
+    *ctx.single_result.lock().unwrap() = None;
+    (def.run)(ctx);
+    ctx.single_result.lock().unwrap().take()
+}
+
+/// `dlv tape <ID> <phase> <file>`: evaluate a raw tape (a fuzzer artifact); a failure is
+/// minimised and reported like any other violation
+pub fn run_tape_file(def: &PropDef, verif_dir: PathBuf, phase: &str, file: &Path) -> i32 {
+    install_panic_hook();
+    let tape = match std::fs::read(file) {
+        Ok(t) => t,
+        Err(e) => {
+            println!("INCONCLUSIVE cannot read {}: {}", file.display(), e);
+            return 2;
+        }
+    };
+    let ctx = RunCtx::new(def.id, Tier::Thorough, 1, verif_dir);
+    match run_single(def, &ctx, phase, &tape) {
+        Some(CaseResult::Fail(mut f)) => {
+            if let (Some(min), false) = (def.minimize, std::env::var("VERIF_NO_MINIMIZE").is_ok()) {
+                if let Ok(Some(v2)) = catch(|| min(&f.replay)) {
+                    if let Ok(Err(msg)) = catch(|| (def.replay)(&v2)) {
+                        f.replay = v2;
+                        f.message = msg;
+                    }
+                }
+            }
+            let p = write_replay(&ctx, &f);
+            println!("VIOLATION property={} replay={}", def.id, p.display());
+            for l in f.message.lines().take(40) {
+                println!("  {}", l);
+            }
+            1
+        }
+        Some(_) => {
+            println!("OK property={} holds on tape {}", def.id, file.display());
+            0
+        }
+        None => {
+            println!("INCONCLUSIVE property={} has no search phase `{}`", def.id, phase);
+            2
+        }
+    }
+}
+
+/// entry point of the coverage-guided fuzz target: the property and phase come from
+/// DLV_FUZZ_PROP / DLV_FUZZ_PHASE; a failure that is not a listed known finding panics
+pub fn fuzz_entry(data: &[u8]) {
+    use std::sync::OnceLock;
+    static STATE: OnceLock<(PropDef, RunCtx, String)> = OnceLock::new();
+    let (def, ctx, phase) = STATE.get_or_init(|| {
+        install_panic_hook();
+        let prop = std::env::var("DLV_FUZZ_PROP").expect("DLV_FUZZ_PROP");
+        let phase = std::env::var("DLV_FUZZ_PHASE").expect("DLV_FUZZ_PHASE");
+        let dir = PathBuf::from(std::env::var("VERIF_DIR").unwrap_or_else(|_| "/verif".into()));
+        let def = crate::props::all().into_iter().find(|p| p.id == prop).expect("unknown property");
+        let ctx = RunCtx::new(def.id, Tier::Thorough, 1, dir);
+        (def, ctx, phase)
+    });
+    if let Some(CaseResult::Fail(f)) = run_single(def, ctx, phase, data) {
+        panic!("FUZZ-FAILURE property={} {}", def.id, first_line(&f.message));
+    }
 }
 
 pub fn first_line(s: &str) -> &str {
